@@ -169,3 +169,51 @@ def c13(ctx):
         ctx.judge(bad, cases)
     ctx.exhaustive = True
     ctx.extra["depth_bound"] = depth
+
+
+def judge_witnesses(ctx, bad, cases):
+    """Rejections of the form 'bad:<axiom>@i,j,k' are attributed to the objects i,j,k of the
+    case (indices into ts), so that a known finding names the offending objects, not the batch."""
+    import re
+    rows = {r["id"]: r for r in L.read_ndjson(cases)}
+    for b in bad:
+        c = rows[b["id"]]
+        m = re.match(r"^(bad:[A-Za-z]+)@(-?\d+(?:,-?\d+)*)$", b["why"])
+        if not m or any(int(i) < 1 for i in m.group(2).split(",")):
+            ctx.flag(c, b["why"])
+            continue
+        idx = [int(i) for i in m.group(2).split(",")]
+        objs = [c["ts"][i - 1] for i in idx]
+        ctx.flag({"op": c["op"], "axiom": m.group(1)[4:], "ts": objs}, m.group(1))
+
+
+def order_plan(ctx, axioms):
+    cases = ctx.gen("MC_Order")
+    events = ctx.drive("base", cases)
+    bad = ctx.validate("Trace_Order", events, shards=1, env={"AXIOMS": axioms}, floor=0.9)
+    judge_witnesses(ctx, bad, cases)
+    n = len(L.read_ndjson(cases)[0]["ts"])
+    ctx.extra["objects"] = n
+    ctx.extra["ordered_pairs"] = n * n
+    ctx.extra["triples"] = n * n * n
+    ctx.exhaustive = True
+
+
+@plan("C01")
+def c01(ctx):
+    ctx.rule = ("one universe of objects of every kind named by the property (all number kinds incl. signed zeros, "
+                "NaN and infinities as doubles, symbols, constants, sums, products, powers, functions, relationals, "
+                "booleans, Piecewise, every set class, derivatives) with alternative construction paths of the same "
+                "value; the library's eq / hash / container behaviour over ALL ordered pairs and triples is validated "
+                "by TLC against the axioms of module Order (eq is an equivalence, eq implies equal hash, the hash "
+                "cache is stable, hash- and order-keyed containers hold one entry per eq-class, alternative paths are eq)")
+    order_plan(ctx, "C01")
+
+
+@plan("C02")
+def c02(ctx):
+    ctx.rule = ("same universe as C01; TLC validates over ALL ordered pairs and triples that __cmp__ ranges over "
+                "{-1,0,1}, is 0 exactly on eq, antisymmetric and transitive, that the container key order is a strict "
+                "weak order whose incomparability is eq, and that set_basic iterates in the same sorted order for "
+                "8 insertion permutations")
+    order_plan(ctx, "C02")
